@@ -62,9 +62,11 @@ class WArr(Value):
         if name == 'reshape':
             def reshape(interp, *a):
                 tgt = as_tuple_seq(interp, a[0]) if len(a) == 1 and not is_intlike(a[0]) else SSeq.lift(tuple(a))
+                if concrete(tgt.length) == 1 and concrete(tgt.get(0)) == -1:
+                    return self.py_getattr(interp, 'ravel').fn(interp)       # x.reshape(-1) is x.ravel()
                 return WArr(tgt, ('reshape', self, tgt))
             return PyFunc(reshape, 'Array.reshape')
-        if name == 'ravel':
+        if name in ('ravel', 'flatten'):
             def ravel(interp):
                 r, s = WArr.opaque(('ravel', self), 'ravel')
                 interp.run.assume(to_z3(s.length) == 1)
